@@ -508,7 +508,8 @@ func ruleDecompAgree(r *Run) {
 	}
 	compField := p.StructField("muxOptions", "compressors")
 	var decomp *ssa.Call
-	eachInstr(fn, func(in ssa.Instruction) {
+	// (in serveHTTP or in a helper it calls: m.requestBody(r, contentEncoding))
+	p.eachInstrR(fn, func(in ssa.Instruction) {
 		if c, ok := in.(*ssa.Call); ok && c.Common().IsInvoke() && c.Common().Method.Name() == "Decompress" {
 			decomp = c
 		}
